@@ -245,4 +245,5 @@ func TestC19(t *testing.T) {
 	defer s.End()
 	hx.Run(s, c19XML, s.N(3000, 30000))
 	hx.Run(s, c19Aug, s.N(1500, 15000))
+	hx.Run(s, c19Start, s.N(1500, 15000))
 }
